@@ -45,6 +45,8 @@ type Number struct {
 	Width   int      // resulting width (Size or >= 32)
 	Words   []uint64 // value, truncated to Width
 	TooWide bool     // digits need more bits than Size (width-literal)
+	XMask   []uint64 // bits written as x
+	ZMask   []uint64 // bits written as z / ?
 }
 
 // ---------------------------------------------------------------- statements
